@@ -15,6 +15,8 @@ import Deb822Verif.Lemmas.CtlWrapUploaders
 import Deb822Verif.Lemmas.DebWrapFmtFixed
 import Deb822Verif.Lemmas.CtlWrapIdem
 import Deb822Verif.Lemmas.CtlWrapReread
+import Deb822Verif.Lemmas.DebWrapSpecC
+import Deb822Verif.Lemmas.DebWrapRereadC
 /-!
 # C07 — wrap-and-sort reformatting never changes content, keeps comments, is idempotent
 
@@ -978,6 +980,87 @@ example : ∀ pg ∈ exControl.paras, ∀ e ∈ paraEntries pg.1, e.key = Ctl.kU
       rcases he with rfl | rfl
       · exact absurd hk (by decide)
       · decide +kernel
+
+
+/-! ### comment lines inside a value (no formatter): the domain of fix abfd7c8 -/
+
+open Spec in
+/-- **fields with comment lines inside the value, re-read at field level.** `EntryC` is a field whose
+    continuation lines are value lines or indented comment lines (`A: b⏎ #c⏎ d` — outside `DocS`).
+    For every well-formed one (`WF`; `Term`: only the last line may lack its terminator), every
+    indentation ≥ 1 and every other setting, with `e' = e.wrap cfg`:
+    * `Entry::wrap_and_sort` returns the node of `e'`, a well-formed, fully terminated field with the
+      same name and the same lines — value lines and comment lines, in their order (`lineToks`);
+    * when the first line of the value is a comment (nothing after the colon, then `#…`), the result
+      has nothing on the line of the field name: the comment starts a line of its own (abfd7c8);
+    * the text of `e'` lexes to exactly its tokens (in front of any following text): comment lines are
+      COMMENT tokens again, value lines VALUE tokens; `parse_entry` builds the node of `e'` from them
+      with no error (whatever follows, unless it starts with an INDENT token);
+    * a document consisting of `e'` alone parses, without error, to one paragraph with that node. -/
+theorem C07_entry_comment_reread (cfg : WrapCfg) (e : EntryC) (hwf : e.WF) (ht : e.Term) (hc : IndentOK cfg) :
+    entryWrap cfg none e.node = some (e.wrap cfg).node
+      ∧ (e.wrap cfg).WF ∧ (e.wrap cfg).TermAll
+      ∧ (e.wrap cfg).key = e.key
+      ∧ (e.wrap cfg).lineToks = e.lineToks
+      ∧ (e.firstIsComment = true → (e.wrap cfg).ws = [] ∧ (e.wrap cfg).v = [])
+      ∧ (∀ rest, lexAux initState ((e.wrap cfg).str ++ rest) = (e.wrap cfg).toks ++ lexAux initState rest)
+      ∧ (∀ rest, HeadNot [.INDENT] rest →
+          parseEntry ((e.wrap cfg).toks ++ rest) = ⟨[(e.wrap cfg).node], [], rest⟩)
+      ∧ parse (e.wrap cfg).str = ⟨.node .ROOT [.node .PARAGRAPH [(e.wrap cfg).node]], []⟩
+      ∧ (e.wrap cfg).node.text = (e.wrap cfg).str := by
+  obtain ⟨h1, h2, h3, h4⟩ := wrapC_props cfg e hwf hc
+  refine ⟨entryWrap_nodeC cfg e hwf ht hc, h1, h2, wrapC_key cfg e, h3, h4,
+    fun rest => lex_entryC _ rest h1 h2, fun rest hr => parseEntry_entryC _ rest h1 h2 hr,
+    parse_entryC _ h1 h2, ?_⟩
+  rw [← tokText_leaves, nodeC_text]
+  have := lex_entryC (e.wrap cfg) [] h1 h2
+  simp only [List.append_nil, lexAux_nil] at this
+  rw [← this]
+  exact lexAux_tokText _ _
+
+/-- the field of abfd7c8: `A:⏎ #c⏎ b` (nothing after the colon, an indented comment, a value line) -/
+def exCommentEntry : Spec.EntryC :=
+  { key := ['A'], ws := [], v := [], nl := true,
+    conts := [⟨[' '], ['#', 'c'], true, true⟩, ⟨[' '], ['b'], true, false⟩] }
+
+example : exCommentEntry.WF ∧ exCommentEntry.Term ∧ exCommentEntry.firstIsComment = true := by
+  refine ⟨⟨by decide, by decide, by decide, ?_⟩, ⟨Or.inl rfl, Or.inl rfl, Or.inl rfl, trivial⟩, rfl⟩
+  intro c hc
+  simp only [exCommentEntry, List.mem_cons, List.not_mem_nil, or_false] at hc
+  rcases hc with rfl | rfl
+  · exact ⟨by decide, by decide, ⟨['c'], rfl, by decide⟩⟩
+  · exact ⟨by decide, by decide, ⟨by decide, 'b', [], rfl, by decide, by decide⟩⟩
+
+/-- it is written back with the comment on a line of its own (before the fix: `A: #c⏎ b`) -/
+example : exCommentEntry.str = "A:\n #c\n b\n".toList
+    ∧ (exCommentEntry.wrap exHashCfg).str = "A:\n    #c\n    b\n".toList := by
+  constructor <;> decide
+
+/-! ### `Source::wrap_and_sort` / `Binary::wrap_and_sort` -/
+
+open Ctl Spec in
+/-- **`Source` / `Binary::wrap_and_sort` is idempotent** on a well-formed paragraph (C03 grammar)
+    whose relationship fields are well-formed (C10 grammar), indentation ≥ 1: the second application
+    does not panic and returns the same paragraph -/
+theorem C07_control_para_idempotent (cfg : WrapCfg) (p : ParaS) (more : Bool) (hwf : p.WF) (ht : p.Term more)
+    (hc : IndentOK cfg) (hrel : ParaRelOK p) (p' : DNode) (h : paraWrap cfg p.node = some p') :
+    paraWrap cfg p' = some p' :=
+  paraWrap_idem cfg p more hwf ht hc hrel p' h
+
+open Ctl Spec in
+/-- **strict re-read of `Source` / `Binary::wrap_and_sort`'s output** (same hypotheses as
+    `C07_control_reread`, for one paragraph): no panic; the printed paragraph is the text of a
+    well-formed, fully terminated document that parses without error to one paragraph with exactly
+    the items the returned paragraph reports -/
+theorem C07_control_para_reread (cfg : WrapCfg) (p : ParaS) (more : Bool) (hwf : p.WF) (ht : p.Term more)
+    (hc : IndentOK cfg) (hrel : ParaRelOK p)
+    (hup : ∀ e ∈ paraEntries p, e.key = kUploaders →
+      ∃ L, GoodLines L ∧ fmtCommaLines kUploaders (rawText e) = Text.join ['\n'] L) :
+    ∃ p' : DNode, paraWrap cfg p.node = some p'
+      ∧ (parse p'.text).errors = []
+      ∧ (∃ t, readStrict p'.text = .ok t ∧ docItems t = [items p']) := by
+  obtain ⟨p', h1, d', hd', _, htext, hparse, hitems⟩ := paraWrap_reread cfg p more hwf ht hc hrel hup
+  exact ⟨p', h1, by rw [hparse], d'.tree, by simp [readStrict, hparse], hitems⟩
 
 
 end Deb822Verif.Props.C07
